@@ -49,7 +49,7 @@ def judge(ctx, cases, tag):
         c.tlc_seq = 1000 * (len(ctx.cases_by_tag) + 1) + 10 * k
         c.states = c.transitions = 0
         c.witnesses = []
-        c.tlc_trace(TRACE[0], TRACE[1], obs, t)
+        c.tlc_trace(TRACE[0], TRACE[1], obs, t, env={"JAVA_TOOL_OPTIONS": "-Xss256m -Xmx4g"})   # 4 judges side by side
         return c
 
     with ThreadPoolExecutor(max_workers=JUDGES) as ex:
